@@ -434,6 +434,9 @@ def run(R, env):
                             if sc_[0] == "call" and sc_[1].endswith("slice::split_first") and sc_[2]:
                                 return sc_[2][0]
                         return None
+                    # `let [first, others @ ..] = packets.as_slice()`: the slice-pattern spelling of the same split
+                    if not is_first and first[0] == "index" and const_int(first[2]) == 0 and coll[0] == "subslice" and norm(coll[1]) == norm(first[1]) and tuple(coll[2])[:1] == (1,):
+                        is_first, coll = True, first[1]
                     P0, P1 = split_of(first, "0"), split_of(coll, "1")
                     if not is_first and P0 is not None and P1 is not None and norm(P0) == norm(P1):
                         is_first, coll = True, P0
